@@ -44,7 +44,7 @@ func (s *c03) Property() string { return "C03" }
 func (s *c03) Build(w *World) {
 	t := w.Tape
 	drawProfile(w)
-	s.dag = GenDAG(t, GenCfg{MaxBlocks: 3 + t.Draw(18), MaxDepth: 2 + t.Draw(4), BlockPad: []int{0, 0, 40, 600}[t.Draw(4)], Share: []int{0, 100, 300}[t.Draw(3)], Empty: []int{0, 0, 80}[t.Draw(3)]})
+	s.dag = GenDAG(t, GenCfg{MaxBlocks: 3 + t.Draw(18), MaxDepth: 2 + t.Draw(4), BlockPad: []int{0, 0, 40, 600}[t.Draw(4)], Share: []int{0, 100, 300}[t.Draw(3)], Empty: []int{0, 0, 80}[t.Draw(3)], Alias: []int{0, 0, 100}[t.Draw(3)]})
 	s.rs = map[cid.Cid]bool{}
 	missPm := []int{0, 0, 100, 300}[t.Draw(4)]
 	for _, c := range s.dag.Order {
